@@ -151,7 +151,11 @@ def gen_program(rng, meta, n=None, kinds=None):
             prog.append({"kind": k, "orig": o, "value": rng.choice([1, 2])})
         elif k == "boundary":
             o = rng.choice(meta["surfaces"])
-            prog.append({"kind": k, "orig": o, "value": rng.choice(["reflecting", "white", "none"])})
+            # how the two flags are assigned: the other flag cleared first, the wanted flag set first (a surface that
+            # carried the other condition has both flags for a moment), or 'noop': False assigned to every flag that
+            # is False already (nothing may change; 'value' is not used then)
+            prog.append({"kind": k, "orig": o, "value": rng.choice(["reflecting", "white", "none"]),
+                         "how": rng.choice(["clear-first", "set-first", "set-first", "noop"])})
         elif k == "thermal_law" and meta.get("material_laws"):
             o = rng.choice(sorted(meta["material_laws"]))
             prog.append({"kind": k, "orig": o, "laws": rng.choice([["grph.20t"], ["lwtr.10t", "poly.01t"], ["be.10t"]])})
@@ -166,6 +170,19 @@ def gen_program(rng, meta, n=None, kinds=None):
             prog.append({"kind": k, "orig": o,       # (never all zeros: that is no rotation matrix)
                          "matrix": [rng.choice([1.0, -1.0, 0.5])] +
                                    [rng.choice([0.0, 1.0, -1.0, 0.5, 0.25, 0.866]) for _ in range(m - 1)]})
+        elif k == "tr_main_to_aux" and meta.get("tr_flag"):
+            o = rng.choice(sorted(meta["tr_flag"]))
+            # three times in four the flag is flipped (relative to what the card says)
+            now = not str(meta["tr_flag"][o]).startswith("-")
+            prog.append({"kind": k, "orig": o, "value": (not now) if rng.random() < 0.75 else now})
+        elif k == "geometry_operator":
+            # the operator of a cell's top-level geometry; most of the time followed by the opposite assignment
+            # (two edits that cancel: with an observation in between for C19)
+            o = rng.choice(meta["cells"])
+            v = rng.choice(["union", "intersection"])
+            prog.append({"kind": k, "orig": o, "value": v})
+            if rng.random() < 0.7:
+                prog.append({"kind": k, "orig": o, "value": "intersection" if v == "union" else "union"})
         elif k == "data_append":
             prog.append({"kind": k, "text": rng.choice(["ctme 60", "prdmp 2j 1", "void", "dbcn 12345"])})
         elif k == "placement":
@@ -202,7 +219,7 @@ def apply(h, e):
            "surface_transform": "surface",
            "material_number": "material", "fraction": "material", "thermal_law": "material",
            "transform_number": "transform", "tr_displacement": "transform", "tr_degrees": "transform",
-           "tr_rotation": "transform"}
+           "tr_rotation": "transform", "tr_main_to_aux": "transform", "geometry_operator": "cell"}
     if k in own and e["orig"] not in table[own[k]]:
         raise Inapplicable(f"{own[k]} {e['orig']}")
     if k == "material_assign" and e["material"] not in h.materials:
@@ -312,6 +329,40 @@ def apply(h, e):
             return False, []
         c.lattice = montepy.data_inputs.lattice.Lattice(e["value"])
         return True, [("value", 0, c.number, ("lat",), e["value"])]
+    if k == "boundary" and e.get("how") == "noop":
+        s = h.surfaces[e["orig"]]
+        if not s.is_reflecting:
+            s.is_reflecting = False
+        if not s.is_white_boundary:
+            s.is_white_boundary = False
+        return True, []
+    if k == "boundary" and e.get("how") == "set-first":
+        s = h.surfaces[e["orig"]]
+        if e["value"] == "reflecting":
+            s.is_reflecting = True
+            s.is_white_boundary = False
+        elif e["value"] == "white":
+            s.is_white_boundary = True
+            s.is_reflecting = False
+        else:
+            s.is_white_boundary = False
+            s.is_reflecting = False
+        return True, [("value", 1, s.number, ("boundary",), e["value"])]
+    if k == "tr_main_to_aux":
+        t = h.transforms[e["orig"]]
+        import numpy as np
+        if len(t._tree["data"]) != 13 or t.rotation_matrix is None or np.size(t.rotation_matrix) != 9:
+            return False, []          # only the full form carries the direction flag (see gen option tr_flag)
+        t.is_main_to_aux = bool(e["value"])
+        return True, [("value", 2, t.number, ("main_to_aux",), 1 if e["value"] else -1)]
+    if k == "geometry_operator":
+        from montepy.geometry_operators import Operator
+        c = h.cells[e["orig"]]
+        g = c.geometry
+        if type(g).__name__ != "HalfSpace" or g.operator not in (Operator.UNION, Operator.INTERSECTION):
+            return False, []
+        g.operator = Operator.UNION if e["value"] == "union" else Operator.INTERSECTION
+        return True, []
     if k == "boundary":
         s = h.surfaces[e["orig"]]
         if e["value"] == "reflecting":
@@ -327,6 +378,8 @@ def apply(h, e):
     if k == "tr_rotation":
         import numpy as np
         t = h.transforms[e["orig"]]
+        if len(e["matrix"]) < 9 and not t.is_main_to_aux:
+            return False, []          # the direction flag -1 can only be written behind a full matrix
         t.rotation_matrix = np.array([float(x) for x in e["matrix"]])
         return True, [("value", 2, t.number, ("rotation",), len(e["matrix"]))]
     if k == "data_append":
